@@ -200,29 +200,33 @@ package parser
 // Parser.split is the split function handed to the scanner: splitFunc's contract carried through unchanged, plus
 // the rule that makes "the BOM is removed only at offset 0 of the stream" hold: the scanner's windows start at
 // offset 0 until the first call that advances (assumed scanner contract), so a first token that is shorter than
-// the advance was preceded by skipped blank lines and must keep its first bytes. It also consumes, alone and at
-// once, the LF of a CRLF whose CR ended the previous token, so that byte never counts towards the next event's size.
+// the advance was preceded by skipped blank lines and must keep its first bytes. It also drops the LF of a CRLF
+// whose CR ended the previous token - together with what follows, never on its own at EOF (the scanner stops for good
+// when a split call consumes bytes without a token after the reader reported EOF: nothing_dropped_at_eof).
 //@ pure lfhalf(r, data) = r.afterCR && len(data) > 0 && data[0] == '\n'
+// lfk: 1 when the window starts with the LF of a CRLF whose CR ended the previous token (that byte is consumed
+// together with what follows and never counts as a blank line), 0 otherwise
+//@ pure lfk(r, data) = ite(lfhalf(r, data), 1, 0)
 
 //@ func Parser.split
 //@   requires r != nil && r.fieldScanner != nil
 //@   requires a_token_was_cut_before_a_cr_is_pending: r.afterCR ==> r.consumed
 //@   modifies r.consumed, r.afterCR, r.fieldScanner.removeBOM
 //@   ensures never_fails: err == nil
-//@   ensures within_the_window: 0 <= advance && advance <= len(data)
-//@   ensures no_token_without_advance: advance == 0 ==> len(token) == 0
-//@   ensures second_half_of_a_crlf_is_consumed_alone: old(lfhalf(r, data)) ==> advance == 1 && len(token) == 0 && !r.afterCR && r.consumed == old(r.consumed) && r.fieldScanner.removeBOM == old(r.fieldScanner.removeBOM)
-//@   ensures only_complete_events_before_eof: !old(lfhalf(r, data)) && !atEOF && advance > 0 ==> eventend(data, advance)
-//@   ensures eof_flushes_the_rest: !old(lfhalf(r, data)) && atEOF && len(data) > 0 ==> advance == len(data) || eventend(data, advance)
-//@   ensures token_is_a_slice_of_the_window: advance > 0 ==> len(token) <= advance && token == substr(data, advance - len(token), advance)
-//@   ensures only_line_breaks_are_skipped: advance > 0 ==> forall(j, 0, advance - len(token), isNL(data[j]))
-//@   ensures token_starts_with_content: advance > 0 && len(token) > 0 ==> !isNL(token[0])
-//@   ensures complete_event_has_content: !old(lfhalf(r, data)) && !atEOF && advance > 0 ==> len(token) > 0
+//@   ensures within_the_window: old(lfk(r, data)) <= advance && advance <= len(data)
+//@   ensures no_token_without_advance: advance == old(lfk(r, data)) ==> len(token) == 0
+//@   ensures only_complete_events_before_eof: !atEOF && advance > old(lfk(r, data)) ==> eventend(data, advance)
+//@   ensures eof_flushes_the_rest: atEOF && len(data) > old(lfk(r, data)) ==> advance == len(data) || eventend(data, advance)
+//@   ensures nothing_dropped_at_eof: atEOF && len(data) > old(lfk(r, data)) ==> advance > old(lfk(r, data))
+//@   ensures token_is_a_slice_of_the_window: advance > old(lfk(r, data)) ==> len(token) <= advance - old(lfk(r, data)) && token == substr(data, advance - len(token), advance)
+//@   ensures only_line_breaks_are_skipped: !old(lfhalf(r, data)) && advance > 0 ==> forall(j, 0, advance - len(token), isNL(data[j]))
+//@   ensures token_starts_with_content: advance > old(lfk(r, data)) && len(token) > 0 ==> !isNL(token[0])
+//@   ensures complete_event_has_content: !atEOF && advance > old(lfk(r, data)) ==> len(token) > 0
 //@   ensures first_token_after_skipped_bytes_keeps_its_bom: !old(r.consumed) && advance > 0 && advance != len(token) ==> !r.fieldScanner.removeBOM
 //@   ensures bom_option_untouched_otherwise: old(r.consumed) || advance == 0 || advance == len(token) ==> r.fieldScanner.removeBOM == old(r.fieldScanner.removeBOM)
-//@   ensures consumed_tracks_the_first_advance: !old(lfhalf(r, data)) ==> r.consumed == (old(r.consumed) || advance > 0)
-//@   ensures after_cr_tracks_the_end_of_the_token: !old(lfhalf(r, data)) && advance > 0 ==> r.afterCR == (data[advance-1] == '\r')
-//@   ensures after_cr_only_waits_for_the_next_byte: !old(lfhalf(r, data)) && advance == 0 ==> r.afterCR == (old(r.afterCR) && len(data) == 0)
+//@   ensures consumed_tracks_the_first_advance: r.consumed == (old(r.consumed) || advance > 0)
+//@   ensures after_cr_tracks_the_end_of_the_token: advance > old(lfk(r, data)) ==> r.afterCR == (data[advance-1] == '\r')
+//@   ensures after_cr_only_waits_for_the_next_byte: advance == old(lfk(r, data)) ==> r.afterCR == (old(r.afterCR) && len(data) == 0)
 //@   ensures pending_cr_implies_consumed: r.afterCR ==> r.consumed
 //@   ensures rest_of_field_parser_untouched: r.fieldScanner.data == old(r.fieldScanner.data) && r.fieldScanner.started == old(r.fieldScanner.started) && r.fieldScanner.err == old(r.fieldScanner.err)
 
